@@ -740,9 +740,83 @@ def check_moments(case, rec):
         )
 
 
+# ---------------------------------------------------------------------------
+# 5. large requests (mode_no * points beyond 2e7): same field, still divergence-free
+
+
+@st.composite
+def gen_large(draw, tier="quick"):
+    dim = draw(st.sampled_from([2, 3]))
+    return {
+        "cls": draw(st.sampled_from(["Gaussian", "Exponential", "Matern"])),
+        "dim": dim,
+        "mode_no": draw(st.sampled_from([1000, 1000, 4000])),
+        "npts": draw(st.sampled_from([21000, 26000])),
+        "seed": draw(st.integers(0, 2**31 - 1)),
+        "mean_u": draw(st.floats(0.3, 3.0)),
+        "structured": draw(st.booleans()),
+    }
+
+
+def check_large(case, rec):
+    from oracles import kernels as ok
+
+    dim = case["dim"]
+    tags = {"model": case["cls"], "dim": dim, "mode_no": case["mode_no"], "kind": "large_request"}
+    rec.label("large_" + ("structured" if case["structured"] else "points"))
+    rs = np.random.RandomState(case["seed"] % (2**31 - 1))
+    model = getattr(gs, case["cls"])(dim=dim, var=1.3, len_scale=2.0)
+    U = case["mean_u"]
+    import warnings
+
+    with warnings.catch_warnings():
+        warnings.simplefilter("ignore")
+        srf = lib(gs.SRF, model, generator="VectorField", mean_velocity=U, mode_no=case["mode_no"], seed=case["seed"] % 100000, _tags=tags)
+        if case["structured"]:
+            m = int(round(case["npts"] ** (1.0 / dim))) + 1
+            axes = [np.sort(rs.uniform(-20, 20, m)) for _ in range(dim)]
+            big = lib(srf.structured, axes, _tags=tags).reshape(dim, -1)
+            pts = np.array(np.meshgrid(*axes, indexing="ij")).reshape(dim, -1)
+        else:
+            pts = rs.uniform(-20, 20, (dim, case["npts"]))
+            big = lib(srf, pts, _tags=tags)
+        idx = np.sort(rs.choice(pts.shape[1], 24, replace=False))
+        small = lib(srf, pts[:, idx], _tags=tags)
+    g = srf.generator
+    scale = U * math.sqrt(model.var)
+    err = float(np.max(np.abs(big[:, idx] - small)))
+    rec.discrepancy("large_vs_small", err, 1e-9 * scale)
+    require(
+        err <= 1e-9 * scale,
+        f"vector field values inside a request of {pts.shape[1]} points (mode_no {case['mode_no']}) differ from the same points requested alone by {err:.3g}",
+        tags,
+    )
+    val, mag = ok.summate_incompr(g._cov_sample, g._z_1, g._z_2, pts[:, idx])
+    e1 = np.zeros((dim, 1))
+    e1[0] = 1.0
+    c = U * math.sqrt(model.var / g.mode_no)
+    want = U * e1 + c * val
+    errk = np.abs(big[:, idx] - want)
+    require(
+        bool(np.all(errk <= 1e-11 * (U + c * mag))),
+        f"large request: field is not mean_u e1 + mean_u sqrt(var/N) * projected mode sum of the generator's own arrays (max dev {float(np.max(errk)):.3g})",
+        tags,
+    )
+    # exact divergence of the mode sum at those points (amplitudes (z2 k_i, -z1 k_i))
+    div = np.zeros(idx.size)
+    tot = np.zeros(idx.size)
+    for i in range(dim):
+        di = summate_incompr(g._cov_sample, g._z_2 * g._cov_sample[i], -g._z_1 * g._cov_sample[i], np.ascontiguousarray(pts[:, idx]))[i]
+        div += di
+        tot += np.abs(di)
+    rec.nontrivial(True)
+    require(bool(np.all(np.abs(div) <= 1e-9 * (tot + 1e-300) + 1e-12 * np.sum(np.abs(g._cov_sample)))), "large request: analytic divergence of the mode sum does not vanish", tags)
+
+
 SUBS = [
     Sub("kernel_div", gen_kernel, check_kernel, quick=480, thorough=8000, shards_quick=4, shards_thorough=4),
     Sub("fd_div", gen_fd, check_fd, quick=450, thorough=7500, shards_quick=3, shards_thorough=3),
     Sub("projector", gen_projector, check_projector, quick=600, thorough=9000, shards_quick=3, shards_thorough=3),
-    Sub("moments", gen_moments, check_moments, quick=24, thorough=120, shards_quick=6, shards_thorough=6, shrink_quick=False),
+    Sub("moments", gen_moments, check_moments, quick=24, thorough=120, shards_quick=5, shards_thorough=6, shrink_quick=False),
+    Sub("large_request", gen_large, check_large, quick=6, thorough=40, shards_quick=1, shards_thorough=2, shrink_quick=False),
 ]
